@@ -1,11 +1,14 @@
 /-
   C10SemId — the composed statement of C01 `id_sound` (stated over the environment `M.env G` of a semi-Markovian model)
   and C10 `canon_den` (stated over every `ProbFamily` environment), through the total environment `M.envX G`:
-  Y0/Props/C10Sem.lean (`canonical_of_sound`, expr side) + Y0/Props/C01Sem.lean (id side).
+  Y0/Props/C10Sem.lean (`canonical_of_sound`, expr side) + Y0/Props/C01Sem.lean (id side); and the relation between the
+  two model classes: `fscm_toScm_prDo` (a functional SCM and the semi-Markovian model it induces have the same
+  interventional distributions), `id_sound_fscm` (C01 transported to functional SCMs).
 -/
 import Y0.Props.C10Sem
 import Y0.Props.C01Sem
 import Y0.Lemmas.IdFuel
+import Y0.Lemmas.FscmObs
 
 namespace Y0
 namespace C10Sem
@@ -26,6 +29,42 @@ theorem id_sound_canonical {topo : MG Name → Except Err (List Name)} (ts : Top
     (C01Sem.id_estimand_wellScoped G X Y e h)
     (C01Sem.id_estimand_swOK ts G hq.wf X Y e h) (C01Sem.id_estimand_denNZA ts G hq.wf X Y e h M hM σ')
     hc hσ hσ'
+
+/-! ## functional SCMs and the semi-Markovian models they induce -/
+
+section fscm_scm
+open Fscm
+
+/-- **every functional SCM induces a semi-Markovian model with the same interventional distributions**
+(`M.toScm card base`, Y0/Spec/FscmToScm.lean: shared noise becomes latent, private noise is pushed forward into the
+kernels): for a well-formed world `dos` and distinct non-intervened nodes `ev`,
+`P_{do(dos)}(ev)` by truncated factorisation = mass of the noise points at which `solve u dos` agrees with `ev`. -/
+theorem fscm_toScm_prDo {M : Fscm.Model} {card : Name → Nat} {base : Nat} {G : MG Name} (hOK : ToScmOK M card base G)
+    (dos ev : List (Name × Nat)) (hdv : DoValid card dos) (hevn : (ev.map (·.1)).Nodup)
+    (hev : ∀ p ∈ ev, p.1 ∈ G.nodes ∧ p.1 ∉ dos.map (·.1)) :
+    (M.toScm card base).prDo G dos ev = (M.fscmEnv card).pr none (ev.map fun p => ⟨p.1, dos, p.2⟩) :=
+  Fscm.fscm_toScm_prDo hOK dos ev hdv hevn hev
+
+/-- the observational case -/
+theorem fscm_toScm_obs {M : Fscm.Model} {card : Name → Nat} {base : Nat} {G : MG Name} (hOK : ToScmOK M card base G)
+    (ev : List (Name × Nat)) (hevn : (ev.map (·.1)).Nodup) (hev : ∀ p ∈ ev, p.1 ∈ G.nodes) :
+    (M.toScm card base).prDo G [] ev = (M.fscmEnv card).pr none (ev.map fun p => ⟨p.1, [], p.2⟩) :=
+  Fscm.fscm_toScm_prDo hOK [] ev ⟨by simp, by simp⟩ hevn (fun p hp => ⟨hev p hp, by simp⟩)
+
+/-- **ID is sound in functional SCMs.**  Whenever ID returns an estimand `e` for `P(Y | do(X))`, then in every functional
+SCM `M` compatible with `G` whose induced semi-Markovian model is positive (`hpos`), `e` evaluated on the
+(counterfactual) environment of `M` is the probability that `Y` takes the values `σ Y` in the world `do(X := σ X)`:
+the mass of the noise points `u` with `solve M u (X := σ X) y = σ y` for all `y ∈ Y`. -/
+theorem id_sound_fscm {topo : MG Name → Except Err (List Name)} (ts : TopoSound topo) (G : MG Name) (X Y : List Name)
+    (hq : ValidQuery G X Y) (hY : Y.Nodup) (e : Expr) (h : identify topo G X Y = .ok e)
+    (M : Fscm.Model) (card : Name → Nat) (base : Nat) (hOK : ToScmOK M card base G)
+    (hpos : (M.toScm card base).Compatible G) (σ' σ : Val) (hσX : ∀ x ∈ X, σ x < card x) :
+    den (M.fscmEnv card) σ' e σ = Fscm.prob M (Y.map fun y => ⟨y, Fscm.doOf X σ, σ y⟩) := by
+  rw [den_fscmEnv_eq_toScm hOK σ' e (id_vocab topo (C01Sem.topoNodes_of_sound ts) G hq.wf X Y e h)
+    (id_obsWS topo G X Y e h) σ, id_sound ts G X Y hq e h (M.toScm card base) hpos σ' σ]
+  exact fscm_toScm_F hOK X Y hY (fun y hy => ⟨hq.ysub y hy, hq.disj y hy⟩) σ hσX
+
+end fscm_scm
 
 /-! ## non-vacuity: concrete semi-Markovian models -/
 
